@@ -13,6 +13,11 @@
      DROP                          the connection drops: the bytes in flight in both directions are LOST; both sides
                                    reconnect = acceptor instance and initiator re-created on their persister files
                                    (Sess.Wire RESTART), the initiator's new Logon goes in flight
+     OI <msgspec> / OA <msgspec>   OVERLAP: Session::send on the initiator / acceptor, and while that send is between the
+                                   assignment of its MsgSeqNum and the write of its control record (the modify_outbound
+                                   hook) the FIRST message in flight towards the sender arrives and is fully processed by
+                                   its reader thread.  The control record of a send reads next_recv when it is written,
+                                   so this is: process that one message, then send
      CFG <a> <b>                   the operators force the numbers: in-flight bytes lost, both sides re-created on their
                                    files with start arguments (Session::start send/receive numbers) initiator ss=a rs=b,
                                    acceptor ss=b rs=a; every LATER reconnect recovers the numbers from the files only
@@ -37,6 +42,8 @@ Inductive sop :=
 | SRestartI
 | SRestartA
 | SCfg (a b : N)
+| SOverI (txt : bytes) (m : msgspec)
+| SOverA (txt : bytes) (m : msgspec)
 | SBad.
 
 Record tp := mkTP {
@@ -85,6 +92,20 @@ Definition deliver_i (t : tp) : res :=
          (mkTP w (tp_a t) (tp_ia t ++ outs e)%list [], e, [])
   end.
 
+(* only the first message in flight arrives *)
+Definition deliver_one_a (t : tp) : res :=
+  match tp_ia t with
+  | [] => (t, [], [])
+  | x :: l => let '(w, e) := side_op (tp_a t) (OIn [x]) in
+              (mkTP (tp_i t) w l (tp_ai t ++ outs e)%list, [], e)
+  end.
+Definition deliver_one_i (t : tp) : res :=
+  match tp_ai t with
+  | [] => (t, [], [])
+  | x :: l => let '(w, e) := side_op (tp_i t) (OIn [x]) in
+              (mkTP w (tp_a t) (tp_ia t ++ outs e)%list l, e, [])
+  end.
+
 Definition seq2 (f g : tp -> res) (t : tp) : res :=
   let '(t1, i1, a1) := f t in
   let '(t2, i2, a2) := g t1 in
@@ -130,6 +151,8 @@ Definition run_sop (t : tp) (o : sop) : res :=
   | SDrop => seq2 lose_flight reconnect t
   | SRestartI => seq2 (seq2 lose_ai deliver_a) (seq2 lose_flight reconnect) t
   | SRestartA => seq2 (seq2 lose_ia deliver_i) (seq2 lose_flight reconnect) t
+  | SOverI _ m => seq2 deliver_one_i (fun t1 => send_i t1 m) t
+  | SOverA _ m => seq2 deliver_one_a (fun t1 => send_a t1 m) t
   | SCfg a b => seq2 lose_flight (reconnect_with (with_numbers sp_i a b) (with_numbers sp_a b a)) t
   | SBad => (t, [ENote [66;65;68;79;80]], [ENote [66;65;68;79;80]])
   end.
@@ -174,6 +197,8 @@ Definition parse_sop (t : bytes) : sop :=
   | [name; a] =>
     if beq name [83;73] then SSendI t (parse_spec a)         (* SI *)
     else if beq name [83;65] then SSendA t (parse_spec a)    (* SA *)
+    else if beq name [79;73] then SOverI t (parse_spec a)    (* OI *)
+    else if beq name [79;65] then SOverA t (parse_spec a)    (* OA *)
     else SBad
   | [name; a; b] =>
     if beq name [67;70;71] then                               (* CFG *)
